@@ -12,6 +12,7 @@ from props import tagstore as TS
 
 ID = "C03"
 LEVEL = "model_checking"
+ISOLATE_SHARDS = True        # every shard runs in a forked child of a pristine worker (mc/core.py)
 RULE = ("BFS to closure over tag-store states; from every state every request of the alphabet (reads/writes by symbolic "
         "name in two cases, by class/instance/attribute, by default attribute; every start index, count and value vector "
         "over the per-type value alphabet; attribute services; fragmented forms; cross-type writes as read-back probes). "
@@ -115,11 +116,11 @@ def roots_for(ctx, many=False):
 
 
 def run(ctx):
-    acc = explore.bfs(ctx, __name__, "expand", roots_for(ctx), chunk=2, splits=4)
+    acc = explore.bfs(ctx, __name__, "expand", roots_for(ctx), chunk=1, splits=4)
     # more than ten auto-allocated tags in one instance: 2^19 store states do not close; explored to depth 2 (every pair of writes
     # followed by every read), which is what aliasing between tags needs
     many = [(k, st) for k, st in roots_for(ctx, many=True)]
-    acc.merge(explore.bfs(ctx, __name__, "expand", many, chunk=4, splits=2, max_depth=2 if ctx.quick else 3))
+    acc.merge(explore.bfs(ctx, __name__, "expand", many, chunk=1, splits=2, max_depth=2 if ctx.quick else 3))
     acc.counters.pop("cap_hit", None)
     acc.note("config 'many' (12 auto-allocated tags) is depth-bounded (2 quick / 3 thorough), all other configurations closed")
     acc.count("traces_validated_against_impl", acc.counters.get("transitions", 0))
@@ -145,3 +146,9 @@ def replay(case):
     msgs += TS.replay_history(rig, case.get("history", []))
     msgs += TS.seat_check(rig, case)
     return msgs
+
+
+def preload():
+    """import the code under test once in the (pristine) worker; shard children are forked from it"""
+    from mc import sim as _sim
+    _sim.mods()
